@@ -54,4 +54,14 @@ func init() {
 		}
 		return "00"
 	}
+	// RSAEP / RSAVP1 core of RFC 8017 for the Coq transcription model/Rsa8017.v:
+	// "rsa_ep n e s" = s^e mod n as minimal big-endian bytes (math/big only).
+	ops["rsa_ep"] = func(a []string) string { // n e s
+		e, _ := strconv.Atoi(a[1])
+		n := new(big.Int).SetBytes(uh(a[0]))
+		if n.Sign() == 0 {
+			return "ERR"
+		}
+		return hx(new(big.Int).Exp(new(big.Int).SetBytes(uh(a[2])), big.NewInt(int64(e)), n).Bytes())
+	}
 }
